@@ -96,11 +96,25 @@ claim("C10", "proof",
       "point crosses an odd number of segments (closed paths an even number); every segment has the inside lattice point on its "
       "LEFT (integer cross products), i.e. filled regions are wound counter-clockwise and holes clockwise; over the reals a "
       "sign-changing edge carries a zero of a continuous field, so a contour vertex lying in its own cell (explicit hypothesis; "
-      "see the finding) is within sqrt(2) h of the curve.  Oracle (not proved: grids with merged cells): Contours::render of "
+      "see the finding) is within sqrt(2) h of the curve.  ADAPTIVE quadtrees (Render/QuadTree.v, QuadTreeSem.v): the model "
+      "covers the topological part of DCTree<2>::collectChildren (merging of uniform children, cornersAreManifold, isManifold "
+      "of every child, leafsAreManifold, collapse into a leaf of level region.level; the numerical tests are an arbitrary "
+      "oracle), the recursive walk Dual<2>::work / edge2 and DCContourer::load with its minimum-level rule; theorems: collapsing "
+      "preserves the lattice-sign invariant (no filled, empty, filled pattern along a side of a collapsed leaf follows from the "
+      "code's tests), the soup of EVERY consistent tree - leaves of any mix of levels, pruned cells of any size - is a disjoint "
+      "union of directed cycles, and prune + collapse + walk + weld returns closed polylines for every lattice sign function "
+      "with a clear region boundary, every depth and every verdict of the numerical tests; necessity of the collapse tests and "
+      "of the clear boundary by kernel-checked counter-examples.  Tie: for 60 (thorough 1500) random shapes the harness dumps "
+      "the implementation's quadtree before and after collapsing (max_err from 1e-8 to 1e9) with the raw directed segments of "
+      "its walk; the extracted collect must rebuild the collapsed tree exactly, the extracted walk must emit exactly the "
+      "implementation's segments, and the extracted checkers decide the theorem's hypotheses on those trees.  Oracle (not "
+      "proved: that adaptive contours wind around the solid; vertex positions): Contours::render of "
       "random 2D solids and slices of 3D solids: contours closed, polygon winding number exactly +1 inside (the proved "
       "orientation) and 0 outside, vertices in the region and within 2 feature sizes of the zero set.",
-      "Trusted: Coq kernel (no axioms); extraction; harness collect / contour commands.",
-      "Coq proof (map/chain invariants, pigeonhole on the welding walk; lattice boundary, parity, orientation, IVT) + extraction-based correspondence",
+      "Trusted: Coq kernel (no axioms for the combinatorial theorems; the standard real-number axioms for the distance bound); "
+      "extraction; harness collect / contour / quadtree commands; ocaml/qtdriver.ml (reads the lattice signs off the uncollapsed tree).",
+      "Coq proof (map/chain invariants, pigeonhole on the welding walk; lattice boundary, parity, orientation, IVT; telescoping "
+      "potential over the recursive walk of adaptive quadtrees) + extraction-based correspondence",
       "DESIGN.md section 6, C10")
 
 claim("C05", "proof",
